@@ -32,6 +32,7 @@ const (
 	kRel   = 4
 	kCons  = 5
 	kFire  = 6
+	kWatch = 7
 )
 
 type gdata struct {
@@ -72,6 +73,13 @@ type cdata struct {
 	cbctx context.Context
 	cbval uint64
 	cbres uint64
+	// the watcher goroutines of this Access call that are parked at hook site 5 (woken by a change, before their cbCancel()), oldest
+	// first; curWatch: the one of the running invocation.  virt: the code under test has no site 5 (the watcher ran straight through):
+	// the harness reports the watcher as parked for one step and its step (event 15) right after
+	watchers  []*ctl.Actor
+	curWatch  *ctl.Actor
+	virt      bool
+	cancKnown bool // the cancellation of the running invocation's context was already accounted for
 }
 
 type sys struct {
@@ -155,6 +163,8 @@ func newSys(w *hist.W, cfg []uint64) *sys {
 			return site == 0 || site == 1
 		case kAsync:
 			return site == 2
+		case kWatch:
+			return site == 5
 		case kRel, kCons, kFire:
 			if a.Kind == kCons && site == 3 {
 				if d := a.Data.(*cdata); d.kind == 4 && d.ref == nil {
@@ -190,6 +200,19 @@ func newSys(w *hist.W, cfg []uint64) *sys {
 			}
 			s.asyncs = append(s.asyncs, a)
 			return a
+		case 5:
+			// the watcher goroutine of the running callback invocation of one Access call: obj is the callback's context
+			cctx, _ := obj.(context.Context)
+			for _, ca := range s.cons {
+				d := ca.Data.(*cdata)
+				if d.kind == 2 && cctx != nil && d.cbctx == cctx && ca.InUser() == 2 {
+					a := s.c.NewActor(kWatch)
+					d.watchers = append(d.watchers, a)
+					d.curWatch = a
+					s.w.Count("hook.site5_watcher_parked", 1)
+					return a
+				}
+			}
 		case 3:
 			ref, _ := obj.(*refcount.Ref[uint64])
 			for _, ca := range s.cons {
@@ -379,12 +402,38 @@ func (s *sys) obs(rets []uint64) []uint64 {
 	o = append(o, uint64(len(s.cons)))
 	for _, ca := range s.cons {
 		d := ca.Data.(*cdata)
+		// Access: a context cancelled although no watcher passed hook site 5: the code has no such site; report the watcher as parked
+		// for this one observation (its step, event 15, is reported next)
+		incb := d.kind == 2 && !d.ret && ca.InUser() == 2
+		if incb && !d.cancKnown && d.cbctx.Err() != nil {
+			d.cancKnown = true
+			if !d.canc {
+				d.virt = true
+				s.w.Count("hook.site5_missing_watcher_reported_virtually", 1)
+			}
+		}
+		nw, cur := uint64(0), false
+		for _, wa := range d.watchers {
+			if wa.Parked() {
+				nw++
+				if wa == d.curWatch && incb {
+					cur = true
+				}
+			}
+		}
+		if d.virt {
+			nw, cur = nw+1, true
+		}
 		if d.ret {
-			o = append(o, 3, d.v, d.e, b2u(d.held))
-		} else if d.kind == 2 && ca.InUser() == 2 {
-			o = append(o, 6, d.cbval, 0, b2u(d.cbctx.Err() != nil))
+			e := d.e
+			if d.kind == 2 {
+				e = nw
+			}
+			o = append(o, 3, d.v, e, b2u(d.held))
+		} else if incb {
+			o = append(o, 6, d.cbval, nw, b2u(d.cbctx.Err() != nil && !d.virt))
 		} else {
-			o = append(o, 2, 0, 0, 0)
+			o = append(o, 2, 0, nw, 0)
 		}
 		fp := uint64(0)
 		if d.fire != nil && d.fire.Parked() {
@@ -392,13 +441,31 @@ func (s *sys) obs(rets []uint64) []uint64 {
 		} else if d.fire != nil || d.fired > 0 {
 			fp = 5
 		}
+		if d.kind == 2 {
+			fp = b2u(cur)
+		}
 		o = append(o, uint64(d.fired), fp)
 	}
 	return o
 }
 
+// pendingVirt is the Access consumer whose (virtual) watcher step must be reported next: the code under test has no hook site 5.
+func (s *sys) pendingVirt() int {
+	for i, ca := range s.cons {
+		if ca.Data.(*cdata).virt {
+			return i
+		}
+	}
+	return -1
+}
+
 func (s *sys) exec(ev []uint64) (obs []uint64, ok bool) {
 	var rets []uint64
+	if pv := s.pendingVirt(); pv >= 0 && !(ev[0] == 15 && int(ev[1]) < len(s.cons) && s.cons[ev[1]].Data.(*cdata).virt) {
+		// this history needs the schedule point the code does not have
+		s.w.Count("hook.site5_missing_history_cut", 1)
+		return nil, false
+	}
 	switch ev[0] {
 	case 1:
 		if ev[1] > 3 {
@@ -534,6 +601,7 @@ func (s *sys) exec(ev []uint64) (obs []uint64, ok bool) {
 			if d.kind == 2 {
 				err := s.rc.Access(ctx, func(cbCtx context.Context, val uint64) error {
 					d.cbctx, d.cbval = cbCtx, val
+					d.curWatch, d.cancKnown = nil, false
 					s.c.ParkUser(a, 2)
 					switch d.cbres {
 					case 0:
@@ -604,6 +672,7 @@ func (s *sys) exec(ev []uint64) (obs []uint64, ok bool) {
 		d.canc = true
 		d.cancel()
 		synctest.Wait()
+		d.cancKnown = true
 	case 12:
 		i := int(ev[1])
 		if i >= len(s.cons) {
@@ -614,6 +683,33 @@ func (s *sys) exec(ev []uint64) (obs []uint64, ok bool) {
 			return nil, false
 		}
 		s.c.Step(d.fire)
+	case 15:
+		i := int(ev[1])
+		if i >= len(s.cons) {
+			return nil, false
+		}
+		d := s.cons[i].Data.(*cdata)
+		if d.kind != 2 {
+			return nil, false
+		}
+		var wa *ctl.Actor
+		for _, x := range d.watchers {
+			if x.Parked() {
+				wa = x
+				break
+			}
+		}
+		switch {
+		case wa != nil:
+			if wa == d.curWatch && s.cons[i].InUser() == 2 {
+				d.cancKnown = true
+			}
+			s.c.Step(wa)
+		case d.virt:
+			d.virt = false
+		default:
+			return nil, false
+		}
 	case 14:
 		if ev[1] < 1 || ev[1] > 3 {
 			return nil, false
@@ -631,6 +727,9 @@ func (s *sys) exec(ev []uint64) (obs []uint64, ok bool) {
 			return nil, false
 		}
 		d.cbres = ev[2]
+		if d.curWatch != nil && d.curWatch.Parked() {
+			s.w.Count("obs.access_callback_returns_while_its_watcher_is_parked", 1)
+		}
 		s.c.StepUser(s.cons[i])
 	default:
 		return nil, false
@@ -662,7 +761,10 @@ func (s *sys) teardown() {
 func pick(r *rand.Rand, xs []int) int { return xs[r.IntN(len(xs))] }
 
 func (s *sys) gen(r *rand.Rand, maxG int) []uint64 {
-	var gate0, inres, store, entered, relparked, relrefs, firep, conslive, incb, accwait []int
+	var gate0, inres, store, entered, relparked, relrefs, firep, conslive, incb, accwait, watchp, watchcur []int
+	if pv := s.pendingVirt(); pv >= 0 {
+		return []uint64{15, uint64(pv)}
+	}
 	na := len(s.parkedAsyncs())
 	room := len(s.gors) < maxG
 	// a resolver return: an error one time in oneInErr; a failing resolver returns the empty value three times out of four
@@ -718,6 +820,27 @@ func (s *sys) gen(r *rand.Rand, maxG int) []uint64 {
 		} else if d.kind == 2 && !d.ret && !d.canc && !ca.Parked() {
 			accwait = append(accwait, i)
 		}
+		for _, wa := range d.watchers {
+			if wa.Parked() {
+				if len(watchp) == 0 || watchp[len(watchp)-1] != i {
+					watchp = append(watchp, i)
+				}
+				if wa == d.curWatch && ca.InUser() == 2 {
+					watchcur = append(watchcur, i)
+				}
+			}
+		}
+	}
+	// the watcher of a running callback is parked before its cbCancel(): the callback returns first, or the watcher runs first
+	if len(watchcur) > 0 && r.IntN(5) != 0 {
+		c := pick(r, watchcur)
+		if r.IntN(2) == 0 {
+			return []uint64{13, uint64(c), []uint64{0, 0, 1, 1, 10, 11}[r.IntN(6)]}
+		}
+		return []uint64{15, uint64(c)}
+	}
+	if len(watchp) > 0 && r.IntN(4) == 0 {
+		return []uint64{15, uint64(pick(r, watchp))}
 	}
 	// an Access call is waiting for a value: let the resolution make progress
 	if len(accwait) > 0 && r.IntN(3) != 0 {
@@ -817,7 +940,8 @@ func (s *sys) gen(r *rand.Rand, maxG int) []uint64 {
 
 func (s *sys) count(ev, obs []uint64) {
 	names := map[uint64]string{1: "setcontext", 2: "addref", 3: "release", 4: "removeref_section", 5: "released_sync", 6: "released_async_section",
-		7: "proceed", 8: "resolver_return", 9: "store", 10: "consumer", 11: "consumer_cancel", 12: "wwr_fire_section", 13: "access_callback_return", 14: "root_context_cancelled"}
+		7: "proceed", 8: "resolver_return", 9: "store", 10: "consumer", 11: "consumer_cancel", 12: "wwr_fire_section", 13: "access_callback_return", 14: "root_context_cancelled",
+		15: "access_watcher_step"}
 	s.w.Count("ev."+names[ev[0]], 1)
 	inres, blocked := 0, 0
 	for _, a := range s.gors {
@@ -908,6 +1032,17 @@ func (s *sys) count(ev, obs []uint64) {
 	}
 	for _, ca := range s.cons {
 		d := ca.Data.(*cdata)
+		if d.kind == 2 {
+			for _, wa := range d.watchers {
+				if wa.Parked() {
+					if wa == d.curWatch && ca.InUser() == 2 {
+						s.w.Count("obs.access_watcher_of_running_callback_parked", 1)
+					} else {
+						s.w.Count("obs.access_stale_watcher_parked", 1)
+					}
+				}
+			}
+		}
 		if d.kind == 2 && ca.InUser() == 2 {
 			s.w.Count("obs.access_in_callback", 1)
 			if d.cbctx.Err() != nil && !d.canc {
